@@ -371,7 +371,7 @@ def run_grad(case):
 
 CHECK = Check(
     P, 'exploration',
-    rule=('acquire: surrogates as in C10 (1-3 dims, asymmetric bounds, 6-25 evidence points, objective shapes incl. an optimum on a face) x class in '
+    rule=('acquire: surrogates as in C10 (1-3 dims, asymmetric bounds given as a dict in either key order, 6-25 evidence points, objective shapes incl. an optimum on a face) x class in '
           '{LCBSC, MaxVar, RandMaxVar(metropolis|nuts), ExpIntVar(grid; importance in the thorough tier), Uniform} x noise in {None, 0, scalar, large '
           'scalar, per-parameter dict with a zero} x prior in {uniform on bounds, normal, normal 3x wider than the bounds} x n 1-8 x t 0-5; BO: a '
           'recording simulator, batch_size 1-3, batches_per_acquisition None/1-3, initial evidence 0 / count / odd count / precomputed dict, '
